@@ -1209,11 +1209,33 @@ class StmtLowering(object):
 
             head.bind(Label(self.node(stmt.lineno, "for", again)))
             return Label(self.node(stmt.lineno, "for-first", first))
-        # iteration over a set of threads (snapshot at loop entry: see DESIGN, assumption)
         src = self.ex.compile(it, ctx)
         if src.sort == "ThreadSet":
-            read = lambda env, w, b=src.base: env.g("{0}[{1}]".format(b, w))  # noqa
-        elif src.sort == "ThreadSetLocal":
+            # iteration over the LIVE list of threads (the field itself or an alias of it):
+            # Python's list iterator is positional -- the i-th element of the list as it is
+            # now -- so removals by exiting workers make it skip elements.  The thread list
+            # keeps insertion order = slot order.
+            base = src.base
+            vfull = self.lo.declare_local(ctx, var)
+            ctx.locals[var] = ("Thread", None)
+            body = self.block(stmt.body, ctx, head)
+
+            def live(env, pos):
+                outs = []
+                seen = 0
+                found = False
+                for w in range(U.W):
+                    member = env.g("{0}[{1}]".format(base, w))
+                    here = and_(member, eq(seen, pos), not_(found))
+                    outs.append((here, {env.lname(vfull): w, env.lname(cfull): add(pos, 1)}, body.pc))
+                    found = or_(found, here)
+                    seen = add(seen, ite(member, 1, 0))
+                outs.append((not_(found), {}, k.pc))
+                return outs
+
+            head.bind(Label(self.node(stmt.lineno, "for-live-threads", lambda env: live(env, env.l(cfull)))))
+            return Label(self.node(stmt.lineno, "for-live-threads-first", lambda env: live(env, 0)))
+        if src.sort == "ThreadSetLocal":
             read = lambda env, w, b=src.base: env.l("{0}[{1}]".format(b, w))  # noqa
         else:
             raise Unsupported("for over {0}".format(src.sort))
